@@ -699,22 +699,21 @@ func (r *MetricsResult) Merge(localRes *MetricsResult) error {
 
 // The groupID string should be in the format of "metricName{tk1:tv1,tk2:tv2,..."
 // As per the flow, there would be no trailing "}" in the groupID string
+// The metric name ends at the first "{"; a tag value may contain further ones
 func removeMetricNameFromGroupID(groupID string) string {
-	stringVals := strings.Split(groupID, "{")
-	if len(stringVals) != 2 {
+	idx := strings.Index(groupID, "{")
+	if idx == -1 {
 		return groupID
-	} else {
-		return stringVals[1]
 	}
+	return groupID[idx+1:]
 }
 
 func ExtractMetricNameFromGroupID(groupID string) string {
-	stringVals := strings.Split(groupID, "{")
-	if len(stringVals) != 2 {
+	idx := strings.Index(groupID, "{")
+	if idx == -1 {
 		return groupID
-	} else {
-		return stringVals[0]
 	}
+	return groupID[:idx]
 }
 
 func (r *MetricsResult) GetOTSDBResults(mQuery *structs.MetricsQuery) ([]*structs.MetricsQueryResponse, error) {
